@@ -315,6 +315,19 @@ Fixpoint dump_roots (all : list ptr) (l : list ptr) (i : nat) : M (list (nat * o
 Definition dump_state (st : state) : M (list (nat * option (node * bool))) :=
   dump_roots (st_items st) (st_items st) 0.
 
+(** the handles that [dump_state] would show, without walking the trees *)
+Fixpoint live_roots_from (all : list ptr) (l : list ptr) (i : nat) : M (list nat) :=
+  match l with
+  | [] => ret []
+  | p :: r =>
+      rest <~ live_roots_from all r (S i) ;;
+      if is_null p then ret rest else
+      if negb (Nat.eqb (first_index all p 0) i) then ret rest else
+      b <~ is_root p ;;
+      ret (if b then i :: rest else rest)
+  end.
+Definition live_roots (st : state) : M (list nat) := live_roots_from (st_items st) (st_items st) 0.
+
 (** library blocks owned by the tree below [p] as cJSON_Delete would release them (nodes, owned
     value strings, owned keys); children of reference nodes are not followed *)
 Fixpoint owned_blocks (d : nat) (p : ptr) : M (option (list positive)) :=
